@@ -313,3 +313,43 @@ func VerifC06_q_reloadVsFilter() {
 	berr := w.bind(name, node)
 	verifAssert("C06/bind-after-node-subnet-change", berr == nil, "Bind failed on a node Filter approved after a reload that changed the node's subnet")
 }
+
+// BOUND: topology 0 with all but one address held by other pods; a statefulset pod (default policy) is bound, then deleted with its event lost; the administrator's API release of its address hits a store failure (the delete fails cleanly) or not; then a fresh pod is filtered over n1, n5, n3 and bound on an approved node: Bind must succeed on every node Filter approves, and Filter must approve n1 / n5 exactly if the address is free in the store
+func VerifC06_q_faultedReleaseThenSchedule() {
+	w := vpNewWorld(0, false)
+	if err := w.configure(); err != nil {
+		return
+	}
+	for _, ip := range w.ips[1:] {
+		if err := w.plugin.ipam.AllocateSpecificIP("sts_ns_other_other-"+ip, vpIP(ip), floatingip.Attr{Policy: constant.ReleasePolicyNever}); err != nil {
+			return
+		}
+	}
+	w.setStatefulSet(2)
+	name := "ss-0"
+	w.createPod(vpMakePod(name, "U1", vpKindSts, "", "", ""))
+	w.syncListers()
+	nodes, err := w.filter(name, "n1", "n5", "n3")
+	if err != nil || len(nodes) == 0 || w.bind(name, nodes[0]) != nil {
+		return
+	}
+	ip := vpBoundIPs(w.pods[name])[0]
+	w.deletePodSilently(name)
+	w.syncListers()
+	w.faultKinds = map[string]bool{"delete": true}
+	w.calls, w.faultAt = 0, nondetInt(0, 1)
+	_ = w.apiRelease(ip)
+	w.faultAt, w.faultKinds = 0, nil
+	verifReach("release-answered")
+	next := "ss-1"
+	w.createPod(vpMakePod(next, "U2", vpKindSts, "", "", ""))
+	w.syncListers()
+	approved, ferr := w.filter(next, "n1", "n5", "n3")
+	_, stillStored := w.store.Objs[ip]
+	verifAssert("C06/offered-iff-free-after-release", ferr == nil && (vpHas(approved, "n1") == !stillStored), "after an API release (complete or failed at the store) Filter offers a node although no address is free in the store, or does not offer it although one is")
+	if ferr != nil || len(approved) == 0 {
+		return
+	}
+	berr := w.bind(next, approved[nondetChoice(len(approved))])
+	verifAssert("C06/bind-after-release", berr == nil, "Bind failed on a node Filter approved after an API release")
+}
